@@ -98,6 +98,14 @@ CLAIMED = {
    note=TB + "Scope resolution (--local/--worktree/--system/--file) is delegated to `git config`; blank hook files count as nothing to destroy; uninstall's documented removal of the whole filter.lfs section is not asserted either way (I2).",
    technique="Lean 4 proof (case analysis of the matcher + decide over the regenerated template tables) + scenario correspondence against the real binary",
    ref="§5 C20"),
+ "C19": dict(
+   text="Lean theorems: what `--filename n` writes, lexed by Git's wildmatch rules, is exactly the literal characters of n (blank as the whitespace class) for EVERY byte string n; it matches n; it matches only names equal to n "
+        "modulo whitespace at n's blanks (full equality for names without a blank); the written pattern field survives Git's line tokeniser for names without a tab; the per-byte escape map equals the regenerated tables on "
+        "all 256 bytes. The escaping functions are compared with the model in process; the model's matcher fragment is compared with real `git check-attr`; real track/untrack runs are judged by `git check-attr` over the "
+        "name, its neighbours and pre-existing patterns (idempotence, untrack, other lines unchanged).",
+   note=TB + "Git's matcher is a spec validated against git 2.39.5 only; pattern (non --filename) arguments are judged by scenario runs, the Lean theorems cover the --filename fragment; a slash-less pattern matches at any depth (Git's rule, not asserted against). Known findings D9a/D9b/D9c/D30.",
+   technique="Lean 4 proof (lexer/escape round trip by induction over the name) + decide over the regenerated tables + differential correspondence vs the real escaping and vs git check-attr",
+   ref="§5 C19"),
 }
 PENDING_REASON = "check not built yet in this session (build in progress, see DESIGN.md §10); not claimed until its theorems and correspondence run"
 ALL = ["C%02d" % i for i in range(1, 21)]
